@@ -23,6 +23,7 @@ import (
 
 // semSpec describes one property check built on the shared engine.
 type semSpec struct {
+	noCorpus bool // leave out the schemas shipped with the repository (tests/data)
 	id       string
 	opts     sg.Opts
 	classes  docgen.Classes
@@ -71,6 +72,23 @@ func runSem(ctx *Ctx, sp *semSpec) (*Outcome, error) {
 			c := sp.extra(ctx, i, sg.NewRng(ctx.Seed, fmt.Sprintf("%s-strata-%d", sp.id, i)))
 			if c == nil {
 				break
+			}
+			cases = append(cases, c)
+		}
+	}
+	if !sp.noCorpus {
+		for k, c := range corpusCases(ctx, sp.id) {
+			if sp.args != nil {
+				// the check's own options (C17: --extra-imports) on top of the ones the corpus directory implies
+				for _, a := range sp.args(sg.NewRng(ctx.Seed, fmt.Sprintf("%s-corpus-%d", sp.id, k)), c.Root) {
+					dup := false
+					for _, have := range c.Args {
+						dup = dup || have == a
+					}
+					if !dup && strings.HasPrefix(a, "--") && a != "--capitalization" && a != "--tags" {
+						c.Args = append(c.Args, a)
+					}
+				}
 			}
 			cases = append(cases, c)
 		}
@@ -667,4 +685,65 @@ func internalNameCase(i int, r *sg.Rng) *sem.Case {
 	}
 	c.Docs = append(c.Docs, docgen.Doc{V: doc, Class: "internalnames", Label: "valid"})
 	return c
+}
+
+// corpusUnsupported lists keywords the reference model does not read: a corpus schema that uses one (anywhere) is
+// left out, as is one with references leaving the file.
+var corpusUnsupported = map[string]bool{"oneOf": true, "not": true, "patternProperties": true, "const": true, "if": true, "then": true, "else": true,
+	"dependencies": true, "dependentSchemas": true, "dependentRequired": true, "contains": true, "uniqueItems": true, "propertyNames": true,
+	"minProperties": true, "maxProperties": true, "additionalItems": true, "prefixItems": true, "readOnly": false, "writeOnly": false}
+
+// corpusCases turns the schema documents that ship with the repository (tests/data, read from the staged copy) into
+// engine cases: the inputs are real-world shaped, the oracle is the model, not the golden files.
+func corpusCases(ctx *Ctx, salt string) []*sem.Case {
+	root := filepath.Join(ctx.Env.St.Repo, "tests", "data")
+	var files []string
+	_ = filepath.Walk(root, func(p string, info os.FileInfo, err error) error {
+		if err == nil && !info.IsDir() && strings.HasSuffix(p, ".json") && info.Size() < 40_000 {
+			files = append(files, p)
+		}
+		return nil
+	})
+	sort.Strings(files)
+	var out []*sem.Case
+	for _, f := range files {
+		data, err := os.ReadFile(f)
+		if err != nil {
+			continue
+		}
+		s, err := sg.FromJSON(data)
+		if err != nil {
+			continue
+		}
+		ok := true
+		s.Walk(func(x *sg.Schema) {
+			if x.Ref != "" && x.Target == nil {
+				ok = false // leaves the file (or dangling)
+			}
+			for _, kv := range x.Extra {
+				if corpusUnsupported[kv.K] {
+					ok = false
+				}
+			}
+			if x.Ext != nil {
+				ok = false // custom Go types: outside the model
+			}
+		})
+		if !ok {
+			continue
+		}
+		rel, _ := filepath.Rel(root, f)
+		c := &sem.Case{Root: s, Sig: "corpus/" + rel}
+		if strings.Contains(rel, "minSizedInts") {
+			c.Args = []string{"--min-sized-ints"}
+		}
+		if strings.Contains(rel, "nameFromTitle") {
+			c.Args = []string{"--struct-name-from-title"}
+		}
+		if strings.Contains(rel, "extraImports") || strings.Contains(rel, "yaml") {
+			c.Args = []string{"--extra-imports"}
+		}
+		out = append(out, c)
+	}
+	return out
 }
